@@ -199,6 +199,8 @@ import BGV
 #print axioms BGV.C16_dedup_restores_inv
 #print axioms BGV.C16_und_removeDuplicateEdges
 #print axioms BGV.C16_und_forced_add
+#print axioms BGV.C16_weighted_removeDuplicateEdges
+#print axioms BGV.C16_weighted_forced_add
 
 -- C17
 #print axioms BGV.C17_dStep_no_ub
